@@ -51,6 +51,13 @@ def run(ctx):
                 else:
                     msg = "the well-typed twin no longer compiles (API change?): %s" % r["errors"]
                 ctx.viol("R19." + short[0], inst, msg, fn=r["entry"], site="witness/catalogue.py:" + short)
+    # R19.c (shared with C16, decided on the type-checked program rather than by a witness): the child table stores a
+    # Sender<M> under the key of M — whatever new way of registering a child is added, it has to go through the conversion
+    # into Sender<M>, which is where `C: Handler<M>` and `M::Response = ()` are demanded (witnesses s*/u* pin that bound)
+    if ctx.tier != "quick" or True:
+        from props import c16
+        fx = ctx.facts("tokio")
+        core.shared(ctx, "R19.c", c16.check_child_store, ctx, fx, "R19.c")
     ctx.floor("R19", "witness programs", n, 100)
     res = {"results": all_results}
     n_ok = sum(1 for r in res["results"] if r["ok"])
